@@ -427,6 +427,17 @@ package tengo
 //@   ensures limit{C06}: op == token.Add && is(rhs, *Bytes) && len(o.Value) + len(rhs.(*Bytes).Value) > MaxBytesLen ==> res0 == nil && res1 == ErrBytesLimit
 //@   ensures unsupported{C01}: !(op == token.Add && is(rhs, *Bytes)) ==> res0 == nil && res1 == ErrInvalidOperator
 
+// splice(array, start, count, items...): no index or slice operation leaves the array for any arguments,
+// the removed elements are returned in an array of their own
+//@ func builtinSplice
+//@   props C01
+//@   assigns args[0].(*Array).Value, args[0].(*Array).Value[*]
+//@   ensures argc{C01}: len(args) == 0 ==> res0 == nil && res1 == ErrWrongNumArguments
+//@   ensures removed{C01}: res1 == nil ==> is(res0, *Array) && fresh(res0)
+//@   ensures start_range{C01}: len(args) > 1 && is(args[1], *Int) && is(args[0], *Array)
+//@                   && (old(args[1].(*Int).Value) < 0 || old(args[1].(*Int).Value) > old(int64(len(args[0].(*Array).Value)))) ==> res1 == ErrIndexOutOfBounds
+//@   loop 0 invariant collected: 3 <= i && i <= argsLen && len(items) == i - 3 && cap(items) == argsLen - 3 && fresh(items)
+
 //@ func builtinAppend
 //@   props C01 C09
 //@   let a0 = old(args[0])
